@@ -336,7 +336,7 @@ def schema_guard(func, node, enum_order):
         if anc.get('kind') == 'IfStmt':
             c = children(anc)
             cond = c[0]
-            r = _schema_cmp(cond, enum_order)
+            r = _schema_cmp(cond, enum_order, func)
             if r is None:
                 continue
             op, idx = r
@@ -349,7 +349,7 @@ def schema_guard(func, node, enum_order):
                     break
                 if sib.get('kind') == 'IfStmt':
                     c = children(sib)
-                    r = _schema_cmp(c[0], enum_order)
+                    r = _schema_cmp(c[0], enum_order, func)
                     if r is None:
                         continue
                     then = c[1]
@@ -384,8 +384,40 @@ def _apply(op, idx, in_then, in_else, lo, hi):
     return lo, hi
 
 
-def _schema_cmp(cond, enum_order):
+_NEG = {'>=': '<', '<': '>=', '>': '<=', '<=': '>'}
+_BOOL_LOCALS = {}
+
+
+def _bool_locals(func):
+    """bool locals of func that are initialised once and never assigned: id -> initialiser."""
+    key = id(func.node)
+    if key not in _BOOL_LOCALS:
+        inits, assigned = {}, set()
+        for x in walk(func.node):
+            k = x.get('kind')
+            if k == 'VarDecl' and (x.get('type') or '').replace('const', '').strip() == 'bool':
+                c = [y for y in children(x) if not y['kind'].endswith('Attr')]
+                if c:
+                    inits[x.get('id')] = c[-1]
+            elif k in ('BinaryOperator', 'CompoundAssignOperator') and (x.get('opcode') or '').endswith('=') \
+                    and x.get('opcode') not in ('==', '!=', '<=', '>='):
+                l = strip(children(x)[0])
+                if l.get('kind') == 'DeclRefExpr':
+                    assigned.add((l.get('referencedDecl') or {}).get('id'))
+        _BOOL_LOCALS[key] = {k: v for k, v in inits.items() if k not in assigned}
+    return _BOOL_LOCALS[key]
+
+
+def _schema_cmp(cond, enum_order, func=None, depth=0):
     n = strip(cond, explicit=True)
+    if n.get('kind') == 'UnaryOperator' and n.get('opcode') == '!':
+        r = _schema_cmp(children(n)[0], enum_order, func, depth)
+        return None if r is None else (_NEG[r[0]], r[1])
+    if n.get('kind') == 'DeclRefExpr' and func is not None and depth < 4:
+        init = _bool_locals(func).get((n.get('referencedDecl') or {}).get('id'))
+        if init is not None:
+            return _schema_cmp(init, enum_order, func, depth + 1)
+        return None
     if n.get('kind') not in ('BinaryOperator', 'CXXOperatorCallExpr'):
         return None
     c = children(n)
